@@ -22,9 +22,13 @@ impl Huge {
     /// pattern 0: dense random; 1: sparse (a one every ~2^20 bits) plus clusters around 2^32;
     /// 2: dense prefix of 2^20 bits, then ones at prescribed huge gaps
     pub fn new(j: u64) -> Huge {
-        let delta = [65usize, 4097, 0, 1, 64, (1 << 31) + 12345][(j / 3) as usize % 6];
-        let pattern = j % 3;
-        let len = (1usize << 32) + delta;
+        let delta = [65usize, 4097, 0, 1, 64, (1 << 31) + 12345][(j / 5) as usize % 6];
+        let pattern = j % 5;
+        let len = match pattern {
+            3 => (1usize << 33) + (1 << 20),
+            4 => (1usize << 34) + 77,
+            _ => (1usize << 32) + delta,
+        };
         let nw = len.div_ceil(64);
         let mut words = vec![0usize; nw];
         let mut x: u64 = 0x9E37_79B9_7F4A_7C15 ^ j;
@@ -33,6 +37,11 @@ impl Huge {
             x ^= x >> 7;
             x ^= x << 17;
             x
+        };
+        let set = |words: &mut Vec<usize>, p: usize| {
+            if p < len {
+                words[p / 64] |= 1 << (p % 64)
+            }
         };
         match pattern {
             0 => {
@@ -43,26 +52,43 @@ impl Huge {
             1 => {
                 let mut p = 3usize;
                 while p < len {
-                    words[p / 64] |= 1 << (p % 64);
+                    set(&mut words, p);
                     p += 1 + (next() as usize % (1 << 21));
                 }
                 for d in [0usize, 1, 63, 64, 65, 511, 512, 513, 4096] {
                     for base in [(1usize << 32) - 1 - d, (1usize << 32) + d] {
-                        if base < len {
-                            words[base / 64] |= 1 << (base % 64);
-                        }
+                        set(&mut words, base);
                     }
                 }
             }
-            _ => {
+            2 => {
                 for w in words[..(1 << 20) / 64].iter_mut() {
                     *w = next() as usize | 1;
                 }
                 for p in [(1usize << 31) + 7, (1usize << 32) - 1, 1usize << 32, (1usize << 32) + 1, len - 1] {
-                    if p < len {
-                        words[p / 64] |= 1 << (p % 64);
-                    }
+                    set(&mut words, p);
                 }
+            }
+            3 => {
+                // three upper blocks: a dense prefix with 2^20 + 1 + (j/5)%4 ones, an upper
+                // block with just two ones (no inventory entry starts there when an
+                // entry covers several ones), then more ones in the third upper block
+                let ones = (1usize << 20) + 1 + (j / 5) as usize % 4;
+                for i in 0..ones {
+                    set(&mut words, i);
+                }
+                for p in [(1usize << 32) + 5, (1usize << 32) + 700, (1usize << 33) + 3, (1usize << 33) + 64, (1usize << 33) + 65, (1usize << 33) + 500, (1usize << 33) + 1000, (1usize << 33) + 70_000, len - 1] {
+                    set(&mut words, p);
+                }
+            }
+            _ => {
+                // ultra sparse: gaps around 2^31, so that 4 consecutive ones span more than 2^32 bits
+                let mut p = 11usize;
+                while p < len {
+                    set(&mut words, p);
+                    p += (1usize << 31) - 3 + (next() as usize % 7);
+                }
+                set(&mut words, len - 1);
             }
         }
         if len % 64 != 0 {
@@ -142,6 +168,9 @@ impl Huge {
             v.push((1usize << 32) - d);
             v.push((1usize << 32) + d);
             v.push((1usize << 31) + d);
+            v.push((1usize << 33) + d);
+            v.push((1usize << 33) - d);
+            v.push((1usize << 34) + d);
         }
         let mut x = seed | 1;
         for _ in 0..300 {
@@ -155,10 +184,16 @@ impl Huge {
     pub fn ranks(&self, count: usize, seed: u64) -> Vec<usize> {
         let mut v = vec![0usize, 1, count.saturating_sub(1), count, count + 1, usize::MAX];
         // ranks around the 2^32 boundary
-        let r32 = self.rank(1 << 32);
-        for d in 0..6 {
-            v.push(r32.saturating_sub(d));
-            v.push(r32 + d);
+        for k in 1..=4usize {
+            let r32 = self.rank(k << 32);
+            for d in 0..6 {
+                v.push(r32.saturating_sub(d));
+                v.push(r32 + d);
+            }
+        }
+        // for sparse vectors: every rank
+        if count <= 3000 {
+            v.extend(0..count);
         }
         let mut x = seed | 1;
         for _ in 0..300 {
@@ -179,7 +214,7 @@ pub fn check_rank<T: Rank + RankZero + NumBits + BitLength>(cx: &mut Ctx, name: 
     for p in h.positions(seed) {
         let r = cx.must("rank", || s.rank(p))?;
         let want = h.rank(p);
-        cx.check_eq(r, want, "rank", || format!("{name}: rank({p}) on a vector of 2^32+{} bits", h.len - (1 << 32)))?;
+        cx.check_eq(r, want, "rank", || format!("{name}: rank({p}) on a vector of {} bits", h.len))?;
         let rz = cx.must("rank_zero", || s.rank_zero(p))?;
         cx.check_eq(rz, p - want, "rank_zero", || format!("{name}: rank_zero({p})"))?;
     }
@@ -189,7 +224,7 @@ pub fn check_rank<T: Rank + RankZero + NumBits + BitLength>(cx: &mut Ctx, name: 
 pub fn check_select<T: Select + NumBits>(cx: &mut Ctx, name: &str, s: &T, h: &Huge, seed: u64) -> R {
     for r in h.ranks(h.num_ones, seed) {
         let got = cx.must("select", || s.select(r))?;
-        cx.check_eq(got, h.select(r), "select", || format!("{name}: select({r}) with {} ones on 2^32+{} bits", h.num_ones, h.len - (1 << 32)))?;
+        cx.check_eq(got, h.select(r), "select", || format!("{name}: select({r}) with {} ones on {} bits", h.num_ones, h.len))?;
     }
     Ok(())
 }
@@ -197,7 +232,7 @@ pub fn check_select<T: Select + NumBits>(cx: &mut Ctx, name: &str, s: &T, h: &Hu
 pub fn check_select_zero<T: SelectZero + NumBits>(cx: &mut Ctx, name: &str, s: &T, h: &Huge, seed: u64) -> R {
     for r in h.ranks(h.len - h.num_ones, seed) {
         let got = cx.must("select_zero", || s.select_zero(r))?;
-        cx.check_eq(got, h.select_zero(r), "select_zero", || format!("{name}: select_zero({r}) with {} zeros on 2^32+{} bits", h.len - h.num_ones, h.len - (1 << 32)))?;
+        cx.check_eq(got, h.select_zero(r), "select_zero", || format!("{name}: select_zero({r}) with {} zeros on {} bits", h.len - h.num_ones, h.len))?;
     }
     Ok(())
 }
@@ -238,7 +273,47 @@ pub fn select_case(cx: &mut Ctx, j: u64) -> R {
         b - a
     };
     cx.label_if(h.num_ones < 100 && maxgap > 1 << 32, "span>2^32");
-    match j % 4 {
+    if j % 5 == 4 {
+        // 64-bit spans: adaptive selectors with all-local and spilling parameters
+        macro_rules! konst {
+            ($k:literal, $m:literal) => {{
+                let s = cx.must("SelectAdaptConst", || SelectAdaptConst::<_, Box<[usize]>, $k, $m>::new(AddNumBits::from(bv.clone())))?;
+                check_select(cx, concat!("SelectAdaptConst<", $k, ",", $m, ">"), &s, &h, seed)?;
+            }};
+        }
+        konst!(2, 2);
+        konst!(3, 3);
+        konst!(2, 4);
+        konst!(2, 0);
+        konst!(1, 0);
+        // (zero selectors with tiny inventories would need ~2^34 inventory words here: only the default parameters)
+        let z = cx.must("SelectZeroAdaptConst", || SelectZeroAdaptConst::<_, Box<[usize]>, 12, 3>::new(AddNumBits::from(bv.clone())))?;
+        check_select_zero(cx, "SelectZeroAdaptConst<12,3>", &z, &h, seed)?;
+        for (k, m) in [(2usize, 6usize), (1, 0), (3, 1), (2, 2)] {
+            let s = cx.must("SelectAdapt::with_inv", || SelectAdapt::with_inv(AddNumBits::from(bv.clone()), k, m))?;
+            check_select(cx, &format!("SelectAdapt::with_inv({k},{m})"), &s, &h, seed)?;
+        }
+        return Ok(());
+    }
+    if j % 5 == 3 {
+        // upper blocks without inventory entries
+        macro_rules! small {
+            ($n:literal, $w:literal, $b:expr) => {{
+                let s = cx.must("SelectSmall::with_inv", || SelectSmall::<$n, $w, _>::with_inv(RankSmall::<$n, $w, _>::new(bv.clone()), $b))?;
+                check_select(cx, &format!("SelectSmall<{},{}>::with_inv({})", $n, $w, $b), &s, &h, seed)?;
+                let z = cx.must("SelectZeroSmall::with_inv", || SelectZeroSmall::<$n, $w, _>::with_inv(RankSmall::<$n, $w, _>::new(bv.clone()), $b))?;
+                check_select_zero(cx, &format!("SelectZeroSmall<{},{}>::with_inv({})", $n, $w, $b), &z, &h, seed)?;
+            }};
+        }
+        small!(1, 9, 64);
+        small!(1, 9, 8);
+        small!(2, 9, 256);
+        small!(1, 10, 1024);
+        small!(3, 13, 64);
+        small!(1, 11, 4096);
+        return Ok(());
+    }
+    match (j / 5) % 4 {
         0 => {
             let s = cx.must("SelectSmall<1,9>", || SelectSmall::<1, 9, _>::new(RankSmall::<1, 9, _>::new(bv.clone())))?;
             check_select(cx, "SelectSmall<1,9,RankSmall>", &s, &h, seed)?;
